@@ -125,8 +125,11 @@ Theorem C10_frame_rule : forall c (P : plain c) fuel f org d rest errs out t,
 Proof. exact run_frame_ref. Qed.
 Print Assumptions C10_frame_rule.
 
-(* an iterator that raises after yielding l contributes exactly l: same frames and leaf as if
-   the hook had returned the sequence l *)
+(* a @yields_frames iterator contributes exactly the non-None items it yields before it stops or
+   raises: same frames and leaf as if the hook had returned them as a sequence (with or without None
+   entries in between, which are skipped alike).  In the correspondence a yielded None is mapped to
+   "no item" by the abstraction (frames_gen.c_cfg); the generated iterators yield None at every
+   position. *)
 Theorem C10_iter_keeps_prefix : forall c c2 o l root s s2,
   plain c -> plain c2 -> iter_as_seq c c2 o l ->
   extract c root = Ok s -> extract c2 root = Ok s2 ->
